@@ -249,77 +249,7 @@ func GenPat(t *rapid.T, depth int, o PatOpts) *Pat {
 	switch rapid.IntRange(0, 12).Draw(t, "pk") {
 	case 12:
 		// corner shapes: an empty alternative, a repetition whose body can match nothing
-		x := GenPat(t, depth-1, o)
-		switch rapid.IntRange(0, 15).Draw(t, "corner") {
-		case 12, 13:
-			// alternatives that share their first byte with an earlier alternative that is not their neighbour
-			set := rapid.SampledFrom([][]string{{"begin", "end", "break"}, {"<=", ">=", "<>", "=="}, {"ab", "c", "ac"}, {"é1", "x", "é2"}, {"if", "else", "in"}}).Draw(t, "kwset")
-			alt := &Pat{Kind: "alt"}
-			for _, w := range set {
-				alt.Kids = append(alt.Kids, &Pat{Kind: "lit", Text: w})
-			}
-			g := &Pat{Kind: "group", Cap: rapid.IntRange(0, 3).Draw(t, "altcap") == 0, Kids: []*Pat{alt}}
-			if rapid.Bool().Draw(t, "kwalone") {
-				return g
-			}
-			return &Pat{Kind: "cat", Kids: []*Pat{g, x}}
-		case 14, 15:
-			// the same letters once as written and once case-insensitively, in one pattern: NULL|(?i:null)able
-			w := rapid.SampledFrom([]string{"NULL", "0X", "K", "AB", "Sk"}).Draw(t, "samelit")
-			plain := &Pat{Kind: "lit", Text: w}
-			folded := &Pat{Kind: "cat", Kids: []*Pat{{Kind: "icase", Kids: []*Pat{{Kind: "lit", Text: strings.ToLower(w)}}}, {Kind: "lit", Text: rapid.SampledFrom([]string{"able", "1", "é"}).Draw(t, "sametail")}}}
-			kids := []*Pat{plain, folded}
-			if rapid.Bool().Draw(t, "sameorder") {
-				kids = []*Pat{folded, plain}
-			}
-			return &Pat{Kind: "group", Kids: []*Pat{{Kind: "alt", Kids: kids}}}
-		case 10, 11:
-			// alternatives of which an earlier one is a prefix of a later one (leftmost-first: the shorter one wins;
-			// the regexp parser factors them into prefix(?:|rest))
-			pair := rapid.SampledFrom([][2]string{{"a", "ab"}, {"ab", "abc"}, {"k", "key"}, {"1", "12"}, {"<", "<="}, {"in", "int"}, {"é", "é日"}}).Draw(t, "prefixpair")
-			alt := &Pat{Kind: "alt", Kids: []*Pat{{Kind: "lit", Text: pair[0]}, {Kind: "lit", Text: pair[1]}}}
-			if rapid.IntRange(0, 2).Draw(t, "thirdalt") == 0 {
-				alt.Kids = append(alt.Kids, x)
-			}
-			g := &Pat{Kind: "group", Cap: rapid.IntRange(0, 3).Draw(t, "altcap") == 0, Kids: []*Pat{alt}}
-			if rapid.Bool().Draw(t, "altalone") {
-				return g
-			}
-			return &Pat{Kind: "cat", Kids: []*Pat{g, x}}
-		case 8, 9:
-			// a case-insensitive literal of several characters whose folded forms differ in UTF-8 length
-			// (k / KELVIN SIGN, s / LONG S): byte lengths and character counts disagree
-			lit := &Pat{Kind: "lit", Text: rapid.SampledFrom([]string{"key", "ks", "sk", "ask", "kk", "\u212aey", "skip"}).Draw(t, "foldlit")}
-			ic := &Pat{Kind: "icase", Kids: []*Pat{lit}}
-			if rapid.Bool().Draw(t, "foldalone") {
-				return ic
-			}
-			return &Pat{Kind: "cat", Kids: []*Pat{ic, x}}
-		case 6, 7:
-			// one or more iterations of a body made only of optional parts: X(?:a*b?)+ -- an iteration that
-			// matches nothing still counts as an iteration
-			a, b := genAtom(t, o), genAtom(t, o)
-			first := &Pat{Kind: "rep", Min: 0, Max: -1, Kids: []*Pat{a}}
-			if rapid.Bool().Draw(t, "optfirst") {
-				first.Max = 1
-			}
-			body := &Pat{Kind: "cat", Kids: []*Pat{first, {Kind: "rep", Min: 0, Max: 1, Kids: []*Pat{b}}}}
-			min := rapid.SampledFrom([]int{1, 1, 2}).Draw(t, "plusmin")
-			return &Pat{Kind: "cat", Kids: []*Pat{x, {Kind: "rep", Min: min, Max: -1, Kids: []*Pat{{Kind: "group", Cap: rapid.Bool().Draw(t, "pluscap"), Kids: []*Pat{body}}}}}}
-		case 4, 5:
-			// a tail made only of optional parts, nested in a (capturing) group: X(a?b?)
-			a, b := genAtom(t, o), genAtom(t, o)
-			tail := &Pat{Kind: "cat", Kids: []*Pat{{Kind: "rep", Min: 0, Max: 1, Kids: []*Pat{a}}, {Kind: "rep", Min: 0, Max: 1, Kids: []*Pat{b}}}}
-			return &Pat{Kind: "cat", Kids: []*Pat{x, {Kind: "group", Cap: rapid.Bool().Draw(t, "tailcap"), Kids: []*Pat{tail}}}}
-		case 0:
-			return &Pat{Kind: "group", Kids: []*Pat{{Kind: "alt", Kids: []*Pat{{Kind: "lit", Text: ""}, x}}}}
-		case 1:
-			return &Pat{Kind: "group", Kids: []*Pat{{Kind: "alt", Kids: []*Pat{x, {Kind: "lit", Text: ""}}}}}
-		case 2:
-			return &Pat{Kind: "rep", Min: 0, Max: -1, Kids: []*Pat{{Kind: "group", Kids: []*Pat{{Kind: "rep", Min: 0, Max: 1, Kids: []*Pat{wrapRep(x)}}}}}}
-		default:
-			return &Pat{Kind: "rep", Min: 1, Max: -1, Kids: []*Pat{{Kind: "group", Kids: []*Pat{{Kind: "rep", Min: 0, Max: -1, Kids: []*Pat{wrapRep(x)}}}}}}
-		}
+		return genCorner(t, GenPat(t, depth-1, o), o, rapid.IntRange(0, 15).Draw(t, "corner"))
 	case 0, 1, 2:
 		n := rapid.IntRange(2, 3).Draw(t, "cn")
 		kids := make([]*Pat, n)
@@ -362,6 +292,95 @@ func GenPat(t *rapid.T, depth int, o PatOpts) *Pat {
 		return &Pat{Kind: "icase", Kids: []*Pat{GenPat(t, depth-1, o)}}
 	default:
 		return genAtom(t, o)
+	}
+}
+
+// GenCornerPat draws one of the corner shapes with equal probability (inside GenPat they are rare).
+func GenCornerPat(t *rapid.T, o PatOpts) *Pat {
+	which := 0
+	for i := 0; i < 4; i++ {
+		which *= 2
+		if rapid.Bool().Draw(t, "cornerbit") {
+			which++
+		}
+	}
+	return genCorner(t, GenPat(t, rapid.IntRange(0, 1).Draw(t, "cornerdepth"), o), o, which)
+}
+
+// genCorner builds corner shape `which` around the pattern x.
+func genCorner(t *rapid.T, x *Pat, o PatOpts, which int) *Pat {
+	if o.NoICase && (which == 8 || which == 9 || which >= 14) {
+		which = 10
+	}
+	switch which {
+	case 12, 13:
+		// alternatives that share their first byte with an earlier alternative that is not their neighbour
+		set := rapid.SampledFrom([][]string{{"begin", "end", "break"}, {"<=", ">=", "<>", "=="}, {"ab", "c", "ac"}, {"é1", "x", "é2"}, {"if", "else", "in"}}).Draw(t, "kwset")
+		alt := &Pat{Kind: "alt"}
+		for _, w := range set {
+			alt.Kids = append(alt.Kids, &Pat{Kind: "lit", Text: w})
+		}
+		g := &Pat{Kind: "group", Cap: rapid.IntRange(0, 3).Draw(t, "altcap") == 0, Kids: []*Pat{alt}}
+		if rapid.Bool().Draw(t, "kwalone") {
+			return g
+		}
+		return &Pat{Kind: "cat", Kids: []*Pat{g, x}}
+	case 14, 15:
+		// the same letters once as written and once case-insensitively, in one pattern: NULL|(?i:null)able
+		w := rapid.SampledFrom([]string{"NULL", "0X", "K", "AB", "Sk"}).Draw(t, "samelit")
+		plain := &Pat{Kind: "lit", Text: w}
+		folded := &Pat{Kind: "cat", Kids: []*Pat{{Kind: "icase", Kids: []*Pat{{Kind: "lit", Text: strings.ToLower(w)}}}, {Kind: "lit", Text: rapid.SampledFrom([]string{"able", "1", "é"}).Draw(t, "sametail")}}}
+		kids := []*Pat{plain, folded}
+		if rapid.Bool().Draw(t, "sameorder") {
+			kids = []*Pat{folded, plain}
+		}
+		return &Pat{Kind: "group", Kids: []*Pat{{Kind: "alt", Kids: kids}}}
+	case 10, 11:
+		// alternatives of which an earlier one is a prefix of a later one (leftmost-first: the shorter one wins;
+		// the regexp parser factors them into prefix(?:|rest))
+		pair := rapid.SampledFrom([][2]string{{"a", "ab"}, {"ab", "abc"}, {"k", "key"}, {"1", "12"}, {"<", "<="}, {"in", "int"}, {"é", "é日"}}).Draw(t, "prefixpair")
+		alt := &Pat{Kind: "alt", Kids: []*Pat{{Kind: "lit", Text: pair[0]}, {Kind: "lit", Text: pair[1]}}}
+		if rapid.IntRange(0, 2).Draw(t, "thirdalt") == 0 {
+			alt.Kids = append(alt.Kids, x)
+		}
+		g := &Pat{Kind: "group", Cap: rapid.IntRange(0, 3).Draw(t, "altcap") == 0, Kids: []*Pat{alt}}
+		if rapid.Bool().Draw(t, "altalone") {
+			return g
+		}
+		return &Pat{Kind: "cat", Kids: []*Pat{g, x}}
+	case 8, 9:
+		// a case-insensitive literal of several characters whose folded forms differ in UTF-8 length
+		// (k / KELVIN SIGN, s / LONG S): byte lengths and character counts disagree
+		lit := &Pat{Kind: "lit", Text: rapid.SampledFrom([]string{"key", "ks", "sk", "ask", "kk", "\u212aey", "skip"}).Draw(t, "foldlit")}
+		ic := &Pat{Kind: "icase", Kids: []*Pat{lit}}
+		if rapid.Bool().Draw(t, "foldalone") {
+			return ic
+		}
+		return &Pat{Kind: "cat", Kids: []*Pat{ic, x}}
+	case 6, 7:
+		// one or more iterations of a body made only of optional parts: X(?:a*b?)+ -- an iteration that
+		// matches nothing still counts as an iteration
+		a, b := genAtom(t, o), genAtom(t, o)
+		first := &Pat{Kind: "rep", Min: 0, Max: -1, Kids: []*Pat{a}}
+		if rapid.Bool().Draw(t, "optfirst") {
+			first.Max = 1
+		}
+		body := &Pat{Kind: "cat", Kids: []*Pat{first, {Kind: "rep", Min: 0, Max: 1, Kids: []*Pat{b}}}}
+		min := rapid.SampledFrom([]int{1, 1, 2}).Draw(t, "plusmin")
+		return &Pat{Kind: "cat", Kids: []*Pat{x, {Kind: "rep", Min: min, Max: -1, Kids: []*Pat{{Kind: "group", Cap: rapid.Bool().Draw(t, "pluscap"), Kids: []*Pat{body}}}}}}
+	case 4, 5:
+		// a tail made only of optional parts, nested in a (capturing) group: X(a?b?)
+		a, b := genAtom(t, o), genAtom(t, o)
+		tail := &Pat{Kind: "cat", Kids: []*Pat{{Kind: "rep", Min: 0, Max: 1, Kids: []*Pat{a}}, {Kind: "rep", Min: 0, Max: 1, Kids: []*Pat{b}}}}
+		return &Pat{Kind: "cat", Kids: []*Pat{x, {Kind: "group", Cap: rapid.Bool().Draw(t, "tailcap"), Kids: []*Pat{tail}}}}
+	case 0:
+		return &Pat{Kind: "group", Kids: []*Pat{{Kind: "alt", Kids: []*Pat{{Kind: "lit", Text: ""}, x}}}}
+	case 1:
+		return &Pat{Kind: "group", Kids: []*Pat{{Kind: "alt", Kids: []*Pat{x, {Kind: "lit", Text: ""}}}}}
+	case 2:
+		return &Pat{Kind: "rep", Min: 0, Max: -1, Kids: []*Pat{{Kind: "group", Kids: []*Pat{{Kind: "rep", Min: 0, Max: 1, Kids: []*Pat{wrapRep(x)}}}}}}
+	default:
+		return &Pat{Kind: "rep", Min: 1, Max: -1, Kids: []*Pat{{Kind: "group", Kids: []*Pat{{Kind: "rep", Min: 0, Max: -1, Kids: []*Pat{wrapRep(x)}}}}}}
 	}
 }
 
